@@ -63,7 +63,7 @@ func genC29(t *rapid.T) c29Case {
 		n := rapid.IntRange(3, 6).Draw(t, "nops")
 		names := []string{fmt.Sprintf("c%da", ci), fmt.Sprintf("c%db", ci)}
 		for i := 0; i < n; i++ {
-			op := lzIn{Client: ci, Op: pick(t, "op", "create", "create", "write", "write", "read", "getattr", "setsize", "remove", "mkdir", "rename", "lookup", "readdir", "touchdir", "touchdir", "shwrite", "shsetsize", "shread", "shgetattr", "shtouch"),
+			op := lzIn{Client: ci, Op: pick(t, "op", "create", "create", "write", "write", "read", "getattr", "setsize", "remove", "mkdir", "rename", "lookup", "readdir", "touchdir", "touchdir", "shwrite", "shsetsize", "shread", "shgetattr", "shtouch", "shlookup", "shlookup"),
 				Name: rapid.SampledFrom(names).Draw(t, "name")}
 			switch op.Op {
 			case "rename":
@@ -75,7 +75,10 @@ func genC29(t *rapid.T) c29Case {
 			case "setsize", "shsetsize":
 				op.Len = rapid.IntRange(0, 16).Draw(t, "size")
 			}
-			if strings.HasPrefix(op.Op, "sh") || op.Op == "touchdir" {
+			if op.Op == "shlookup" {
+				// LOOKUP of a name nobody has looked up before and nobody changes: first allocations of one path race
+				op.Name = pick(t, "fresh", "fresh0", "fresh1", "fresh2")
+			} else if strings.HasPrefix(op.Op, "sh") || op.Op == "touchdir" {
 				op.Name = ""
 			}
 			ops = append(ops, op)
@@ -84,6 +87,8 @@ func genC29(t *rapid.T) c29Case {
 	}
 	return c
 }
+
+const c29BurstNames = 12
 
 type lzEnt struct {
 	kind byte
@@ -282,6 +287,12 @@ func runC29(tb stat.TB, c c29Case) {
 	v := vfs.New()
 	v.SeedDir("/s", 0755, 0, 0)
 	v.SeedFile("/s/shared", 0644, 0, 0, []byte("shared file"))
+	for _, n := range []string{"fresh0", "fresh1", "fresh2"} {
+		v.SeedFile("/s/"+n, 0644, 0, 0, []byte(n))
+	}
+	for k := 0; k < c29BurstNames; k++ {
+		v.SeedFile(fmt.Sprintf("/s/burst%d", k), 0644, 0, 0, []byte("b"))
+	}
 	cfg := cacheCfg{AttrTTLns: 1, AttrSize: 1}
 	if c.Cached {
 		cfg = cacheCfg{AttrTTLns: 3600e9, AttrSize: 10000, DirCache: true, Negative: true}
@@ -309,6 +320,41 @@ func runC29(tb stat.TB, c c29Case) {
 	}
 	shared := shr.Fh
 	var timedOut int32
+	issued := map[string]map[string]bool{} // never-changing shared name -> handle values LOOKUP returned for it
+
+	// ---- burst phase: all clients look the same never-seen name up at the same moment (released from a
+	// barrier), for several names: first allocations of one path race with each other
+	for k := 0; k < c29BurstNames; k++ {
+		name := fmt.Sprintf("burst%d", k)
+		start := make(chan struct{})
+		var bw sync.WaitGroup
+		var bmu sync.Mutex
+		for g := 0; g < 2*len(c.Clients); g++ {
+			bw.Add(1)
+			go func() {
+				defer bw.Done()
+				defer func() {
+					if r := recover(); r != nil {
+						if _, ok := r.(abandon); !ok {
+							panic(r)
+						}
+					}
+				}()
+				<-start
+				r := s.nfs(nfsx.ProcLookup, nfsx.ArgsDirop(dir, name))
+				if r.Status == nfsx.OK {
+					bmu.Lock()
+					if issued[name] == nil {
+						issued[name] = map[string]bool{}
+					}
+					issued[name][fmt.Sprintf("%x", r.Fh)] = true
+					bmu.Unlock()
+				}
+			}()
+		}
+		close(start)
+		bw.Wait()
+	}
 
 	// jitter inside the backend
 	var lcg uint32 = c.Jitter | 1
@@ -414,6 +460,16 @@ func runC29(tb stat.TB, c c29Case) {
 						res = s.nfs(nfsx.ProcRead, nfsx.ArgsRead(shared, uint64(in.Off), uint32(in.Len)))
 					case "shgetattr":
 						res = s.nfs(nfsx.ProcGetattr, nfsx.ArgsFh(shared))
+					case "shlookup":
+						res = s.nfs(nfsx.ProcLookup, nfsx.ArgsDirop(dir, in.Name))
+						if res.Status == nfsx.OK {
+							mu.Lock()
+							if issued[in.Name] == nil {
+								issued[in.Name] = map[string]bool{}
+							}
+							issued[in.Name][fmt.Sprintf("%x", res.Fh)] = true
+							mu.Unlock()
+						}
 					case "readdir":
 						res = s.nfs(nfsx.ProcReaddir, nfsx.ArgsReaddir(dir, 0, [8]byte{}, 65536))
 						if res.Status == nfsx.OK {
@@ -538,6 +594,48 @@ func runC29(tb stat.TB, c c29Case) {
 					}
 				}
 				past = append(past, cur)
+			}
+		}
+	}
+	// ---- the handle table: one live handle per path, and the table agrees with itself. No eviction can have
+	// happened (default limit 100000), so every value issued for an unchanged path is live and must be the same.
+	for n, vals := range issued {
+		if len(vals) > 1 {
+			var vs []string
+			for h := range vals {
+				vs = append(vs, h)
+			}
+			sort.Strings(vs)
+			if stat.Violate(tb, id, check, "concurrent-lookups-issue-different-handles-for-one-path", c, "concurrent LOOKUPs of the unchanged /s/%s returned %d different live handle values %v", n, len(vals), vs) {
+				return
+			}
+		}
+	}
+	{
+		fm := s.e.NFS.VerifFileMap()
+		byHandle, byPath := fm.VerifHandlePaths(), fm.VerifPathHandles()
+		seenPath := map[string]uint64{}
+		for h, p := range byHandle {
+			if p == "" {
+				continue
+			}
+			if other, dup := seenPath[p]; dup {
+				if stat.Violate(tb, id, check, "handle-table-holds-two-handles-for-one-path", c, "after all requests finished the handle table holds handles %d and %d for the same path %s\n%s", other, h, p, describe()) {
+					return
+				}
+			}
+			seenPath[p] = h
+			if ph, ok := byPath[p]; !ok || ph != h {
+				if stat.Violate(tb, id, check, "handle-table-disagrees-with-path-index", c, "after all requests finished handle %d maps to %s but the path index maps %s to %d (present=%v)", h, p, p, ph, ok) {
+					return
+				}
+			}
+		}
+		for p, h := range byPath {
+			if hp, ok := byHandle[h]; !ok || hp != p {
+				if stat.Violate(tb, id, check, "handle-table-disagrees-with-path-index", c, "after all requests finished the path index maps %s to handle %d, which the table maps to %q (present=%v)", p, h, hp, ok) {
+					return
+				}
 			}
 		}
 	}
